@@ -35,3 +35,8 @@ CASES += [
     dict(id='c15-eq-roll-ge-one', prop='C15', file='src/library/log/files/counted.cpp', expect=None,
          old="   for (int file_nbr = mMaxGenerations - 1; file_nbr > 0; --file_nbr)", new="   for (int file_nbr = mMaxGenerations - 1; file_nbr >= 1; --file_nbr)"),
 ]
+
+CASES += [
+    dict(id='c15-opencheck-no-size', prop='C15', file='src/library/log/files/max_size.cpp', expect='R2',
+         old="   mCurrentFilesize = fileSize();\n   return mCurrentFilesize < mMaxFileSize;", new="   return fileSize() < mMaxFileSize;"),
+]
